@@ -480,7 +480,7 @@ JsonFaults(nd) ==
 
 TableFaults(nd, x) ==
   IF nd.t # "table" THEN {} ELSE
-       {[f |-> "EmptyFile"]}
+       {[f |-> "EmptyFile"], [f |-> "BlankLine", line |-> 0], [f |-> "BlankLine", line |-> Len(nd.l)]}
   \cup (IF Len(nd.l) > 0 THEN {[f |-> "DropLine", line |-> 0], [f |-> "DropLine", line |-> Len(nd.l) - 1]} ELSE {})
   \cup UNION {{[f |-> "DropToken", line |-> q-1], [f |-> "ExtraToken", line |-> q-1], [f |-> "NonNumeric", line |-> q-1, tok |-> 0]} :
                  q \in {q \in 1..Len(nd.l) : Len(nd.l[q]) > 0}}
@@ -549,6 +549,7 @@ TokStr == [t |-> "str", s |-> "x"]
 ApplyTable(nd, ft, x) ==
   LET L == nd.l IN
   CASE ft.f = "EmptyFile" -> Tab(<<>>)
+    [] ft.f = "BlankLine" -> Tab([q \in 1..(Len(L)+1) |-> IF q <= ft.line THEN L[q] ELSE IF q = ft.line + 1 THEN <<>> ELSE L[q-1]])   \* a line of white space
     [] ft.f = "DropLine" -> Tab([q \in 1..(Len(L)-1) |-> IF q <= ft.line THEN L[q] ELSE L[q+1]])
     [] ft.f = "DropToken" -> Tab([L EXCEPT ![ft.line + 1] = DropLast(@)])
     [] ft.f = "ExtraToken" -> Tab([L EXCEPT ![ft.line + 1] = Append(@, Num("one"))])
